@@ -247,6 +247,14 @@ pub fn plan(property: &str, tier: &str) -> Option<CheckSpec> {
             gc.max_parents = 1;
             gc.max_len = if quick { 3 } else { 4 };
             let nconc = b.add_concurrent(&gc, &[true, false], 2, &rules, if quick { 1 } else { 2 });
+            // cancel() while the calling thread's command queue is full (the overload programs of
+            // C09 that contain a cancel)
+            let ring: Vec<Program> = overload_programs(if quick { 2 } else { 3 }).into_iter().filter(|p| p.actors[0].ops.iter().any(|o| matches!(o, Op::Cancel { .. }))).collect();
+            let nring = ring.len();
+            for pr in ring {
+                b.add("SCHED", pr, true, Some(2), &rules, false);
+            }
+            let n1 = n1 + nring as u64;
             rule_text = format!("named cancel scenarios x both configurations x all schedules up to the preemption bound, plus {nconc} generated concurrent two-thread programs (preemptions <= 2), plus {n1} generated programs with cancel() at every position x all placements of atomic collector cycles x both configurations");
             bound_text = format!("scenarios: preemptions <= {bound}; generated: <= 3 spans, 1 local span, 1 attachment, <= {} operations", g.max_len);
         }
@@ -269,7 +277,7 @@ pub fn plan(property: &str, tier: &str) -> Option<CheckSpec> {
             g.handle_attach = true;
             g.local_attach = true;
             g.creation_props = true;
-            g.max_len = if quick { 5 } else { 7 };
+            g.max_len = if quick { 5 } else { 6 };
             let n1 = b.add_gen(&g, if quick { 1 } else { 2 }, &[true, false], &rules, 3_000_000);
             let mut g2 = g.clone();
             g2.name = "C06-2actors".into();
@@ -277,8 +285,11 @@ pub fn plan(property: &str, tier: &str) -> Option<CheckSpec> {
             g2.max_switches = 2;
             g2.max_spans = 2;
             g2.max_depth = 1;
-            g2.max_len = if quick { 3 } else { 6 };
+            g2.max_len = if quick { 3 } else { 5 };
             let n2 = b.add_gen(&g2, 1, &[true, false], &rules, 3_000_000);
+            for c in [true, false] {
+                b.add_batch(multi_parent_attach_programs().into_iter().map(|p| p.collector(if quick { 1 } else { 2 }, true, 0)).collect(), c, false, &rules);
+            }
             for (i, prog) in string_programs().into_iter().enumerate() {
                 for c in [true, false] {
                     let _ = i;
@@ -341,6 +352,13 @@ pub fn plan(property: &str, tier: &str) -> Option<CheckSpec> {
             gc.max_parents = 1;
             gc.max_len = if quick { 3 } else { 4 };
             let nconc = b.add_concurrent(&gc, &[true, false], 2, &rules, if quick { 1 } else { 2 });
+            // finish / cancel signals issued while the queue is full must still release the trace's entry
+            let ring: Vec<Program> = overload_programs(2).into_iter().filter(|p| p.actors[0].ops.iter().any(|o| matches!(o, Op::Finish { slot: 0 } | Op::Cancel { .. }))).step_by(if quick { 3 } else { 1 }).collect();
+            for pr in ring {
+                for c in [true, false] {
+                    b.add("SCHED", pr.clone(), c, Some(if quick { 1 } else { 2 }), &rules, false);
+                }
+            }
             rule_text = format!("all named scenarios x both configurations x all schedules up to the preemption bound, plus {nconc} generated concurrent two-thread programs (preemptions <= 2), plus {n1} + {n2} generated histories of trace starts / finishes / cancels / attachments / thread exits x all placements of atomic collector cycles x both configurations");
             bound_text = format!("scenarios: preemptions <= {bound}, 2 collector cycles + final flush; generated: <= 3 spans, <= {} operations", g.max_len);
         }
@@ -382,6 +400,21 @@ pub fn plan(property: &str, tier: &str) -> Option<CheckSpec> {
             g3.allow_noop = true;
             g3.max_len = if quick { 4 } else { 5 };
             let n3 = b.add_gen(&g3, if quick { 0 } else { 1 }, &[false, true], &rules, 2_000_000);
+            // scopes of unsampled spans nested in sampled ones (and the reverse): nothing recorded
+            // inside may surface under the enclosing scope
+            let mut g4 = GenCfg::base("C02-unsampled-scopes");
+            g4.traces = vec![TraceOpt { trace: 0xA1, sampled: true, remote_parent: 0 }, TraceOpt { trace: 0xC3, sampled: false, remote_parent: 5 }];
+            g4.any_trace_order = true;
+            g4.max_spans = 3;
+            g4.allow_scope = true;
+            g4.allow_child_local = true;
+            g4.allow_lc = true;
+            g4.max_sets = 1;
+            g4.max_depth = 2;
+            g4.max_locals = 1;
+            g4.max_len = if quick { 5 } else { 6 };
+            let n4 = b.add_gen(&g4, if quick { 0 } else { 1 }, &[false, true], &rules, 2_000_000);
+            let n1 = n1 + n4;
             let n1 = n1 + n3;
             rule_text = format!("bounded-exhaustive generated programs ({n1} single-actor + {n2} two-actor lock-step) x every placement of 1 atomic collector cycle at a ring-push boundary x both configurations; non-trivial: a collector cycle falls between the first and last queue command");
             bound_text = format!("<= {} spans, <= {} local spans, scope depth <= 2, <= {} operations; 1 cycle placed anywhere + final flush", g.max_spans, g.max_locals, g.max_len);
